@@ -40,31 +40,88 @@ def canonical_locals(fnode):
 
 
 def valueless_token_frames(chk):
+    """a keyword token carries no text: its source text is known through its type only.  So in
+    parse_identifier the type of a valueless token has to be the entry of the `keywords` table
+    for exactly the text that was consumed.  Judged on what the function does with that text,
+    not on how it is written:
+      (i)   the text variable T is the value of the IDENTIFIER token;
+      (ii)  T is only ever assigned consumed source text (pop(), T + pop(), the group of a pattern
+            matched on the source) -- a lookup, a method call or a slice applied to T is a change;
+      (iii) every other Token(...) takes its type from keywords[T] / keywords.get(T), directly or
+            through one local variable.
+    A positive breach of (ii) or (iii) is a violation; a function in which T cannot be found is
+    undecided (the bounded round trip, which includes look-alike spellings of keywords, decides)."""
     import ast
+    from .common import Item
+    name = "frame.parse_identifier.keyword_token_only_for_the_exact_table_entry"
     f = chk.repo.find_function("norminette/lexer/lexer.py:Lexer.parse_identifier")
-    node = canonical_locals(f.node)
-    spec = TOKEN_FORMS["parse_identifier"]
-    toks, text, guards, calls = set(), set(), set(), set()
-    textvars = {t.id for x in ast.walk(node) if isinstance(x, (ast.Assign, ast.AugAssign)) and "self.pop()" in ast.unparse(x.value)
-                for t in ast.walk(x) if isinstance(t, ast.Name) and isinstance(t.ctx, ast.Store)}
+    node = f.node
+    tokens = [x for x in ast.walk(node) if isinstance(x, ast.Call) and isinstance(x.func, ast.Name) and x.func.id == "Token"]
+    ident = [x for x in tokens if x.args and isinstance(x.args[0], ast.Constant) and x.args[0].value == "IDENTIFIER"]
+    tvars = set()
+    for x in ident:
+        v = x.args[2] if len(x.args) >= 3 else next((k.value for k in x.keywords if k.arg == "value"), None)
+        if isinstance(v, ast.Name):
+            tvars.add(v.id)
+    if len(tvars) != 1 or not ident:
+        chk.items.append(Item(f"C10.{name}", "frame-scan", "undecided", "frame-scan", 0.0,
+                              {"reason": "the variable holding the identifier text was not found", "tokens": [ast.unparse(x) for x in tokens]}))
+        chk.undecided.append(f"C10.{name}: the form of parse_identifier is not recognised; the bounded round trip decides")
+        return
+    T = tvars.pop()
+
+    def consumed_text(e):
+        src = ast.unparse(e).replace(" ", "")
+        if src in ("self.pop()", f"{T}+self.pop()"):
+            return True
+        # the text a pattern matched on the source: m.group() / m.group(0) / m[0]
+        if isinstance(e, ast.Call) and isinstance(e.func, ast.Attribute) and e.func.attr == "group" and \
+                (not e.args or (isinstance(e.args[0], ast.Constant) and e.args[0].value == 0)):
+            return True
+        if isinstance(e, ast.Subscript) and isinstance(e.slice, ast.Constant) and e.slice.value == 0 and isinstance(e.value, ast.Name):
+            return True
+        if isinstance(e, ast.Constant) and e.value == "":
+            return True
+        return False
+    breaches = []
     for x in ast.walk(node):
-        if isinstance(x, ast.Call) and isinstance(x.func, ast.Name) and x.func.id == "Token":
-            toks.add(ast.unparse(x))
-        if isinstance(x, (ast.Assign, ast.AugAssign)) and textvars & {t.id for t in ast.walk(x) if isinstance(t, ast.Name) and isinstance(t.ctx, ast.Store)}:
-            text.add(ast.unparse(x))
-        if isinstance(x, ast.If):
-            for r in ast.walk(x):
-                if isinstance(r, ast.Return) and r.value is not None and "keywords" in ast.unparse(r.value):
-                    guards.add(ast.unparse(x.test))
-        if isinstance(x, ast.Call) and isinstance(x.func, ast.Name) and x.func.id not in ("Token",):
-            calls.add(x.func.id)
-    ok = toks == spec["tokens"] and text == spec["text"] and guards == spec["guards"] and not calls
-    chk.frame("frame.parse_identifier.keyword_token_only_for_the_exact_table_entry", ok,
-              {"tokens": sorted(toks), "consumed_text": sorted(text), "guards": sorted(guards), "other_calls": sorted(calls),
-               "note": "local variables are compared under canonical names (v0, v1, ... by first assignment)"},
-              what="parse_identifier no longer builds its tokens as Token(keywords[text], pos) under `text in keywords` / "
-                   f"Token('IDENTIFIER', pos, text) with text the popped characters: {sorted(toks)} {sorted(text)} "
-                   f"{sorted(guards)} {sorted(calls)} -- the text of a keyword token may differ from what was consumed")
+        tg = x.targets if isinstance(x, ast.Assign) else [x.target] if isinstance(x, (ast.AugAssign, ast.NamedExpr, ast.AnnAssign)) else []
+        for t in tg:
+            if isinstance(t, ast.Name) and t.id == T:
+                val = x.value
+                ok = consumed_text(val) if not isinstance(x, ast.AugAssign) else ast.unparse(val).replace(" ", "") == "self.pop()"
+                if not ok:
+                    breaches.append(f"the identifier text is changed: {ast.unparse(x)}")
+    # variables that hold keywords[T] / keywords.get(T)
+    def table_entry(e):
+        if isinstance(e, ast.Subscript) and ast.unparse(e.value) == "keywords":
+            return isinstance(e.slice, ast.Name) and e.slice.id == T
+        if isinstance(e, ast.Call) and ast.unparse(e.func) == "keywords.get":
+            return bool(e.args) and isinstance(e.args[0], ast.Name) and e.args[0].id == T and len(e.args) == 1
+        return False
+    kvars = set()
+    for x in ast.walk(node):
+        if isinstance(x, (ast.Assign, ast.NamedExpr)) and table_entry(x.value):
+            for t in (x.targets if isinstance(x, ast.Assign) else [x.target]):
+                if isinstance(t, ast.Name):
+                    kvars.add(t.id)
+    for x in tokens:
+        if x in ident:
+            continue
+        a0 = x.args[0] if x.args else None
+        if not (a0 is not None and (table_entry(a0) or (isinstance(a0, ast.Name) and a0.id in kvars))):
+            breaches.append(f"a token whose type is not the keywords entry of the consumed text: {ast.unparse(x)}")
+    for x in ast.walk(node):
+        if isinstance(x, ast.Name) and x.id in kvars and isinstance(x.ctx, ast.Store):
+            pass
+    # the variables holding the table entry are assigned nothing else
+    for x in ast.walk(node):
+        if isinstance(x, (ast.Assign, ast.AugAssign)):
+            for t in (x.targets if isinstance(x, ast.Assign) else [x.target]):
+                if isinstance(t, ast.Name) and t.id in kvars and not (isinstance(x, ast.Assign) and table_entry(x.value)):
+                    breaches.append(f"the looked-up kind is changed: {ast.unparse(x)}")
+    chk.frame(name, not breaches, {"text_variable": T, "tokens": [ast.unparse(x) for x in tokens], "breaches": breaches},
+              what="parse_identifier: " + "; ".join(breaches) + " -- the text of a keyword token may differ from what was consumed")
 
 
 def run(tier, seed, replay):
